@@ -21,7 +21,9 @@ Justification classes and the theorem of `J2O.Props.C14` that carries each:
                                                 order = sorted package walk; validated by pre-import shuffles
   (F-C14-1, the shape refresh in set order, was fixed in /repo by 4ccbe6a: the refresh now runs in graph order,
    `refresh_graph_order_invariant`; `refresh_perm_invariant_refuted` documents the old loop)
-  refutedF2        `append_perm_invariant_refuted` (+ `_partial`)   — known finding F-C14-2
+  (F-C14-2, function inputs appended in `set[str]` order, was fixed in /repo by 8f5c416: the loop now iterates the
+   insertion-ordered literal map and only tests membership in the set — `inRefOrder_perm_invariant`; a dict that is not
+   identity-keyed is no site; `append_perm_invariant_refuted` documents the old loop)
 -/
 import J2O.Gen.C14
 
@@ -30,7 +32,7 @@ open J2O.Gen.C14
 
 inductive Cls where
   | commutingRemove | commutingSubst | commutingLocal | collect | reduction | dictFill | sorted
-  | keyOnly | registryOrder | refutedF2
+  | keyOnly | registryOrder
   deriving DecidableEq, Repr
 
 def reviewed : List (Site × Cls) := [
@@ -73,8 +75,7 @@ def reviewed : List (Site × Cls) := [
   (("optimizer_graph_utils.py", "_consumer_nodes", "id-call", "id(node)", "", "4cc3577691d4"), .keyOnly),
   (("optimizer_graph_utils.py", "_producer_node", "id-call", "id(node)", "", "4cc3577691d4"), .keyOnly),
   (("optimizer_graph_utils.py", "_producer_node", "id-call", "id(prod)", "", "b3b904d8d8ad"), .keyOnly),
-  -- plugin_system.py: one function input appended per call parameter IN SET ORDER of a set[str]  (F-C14-2)
-  (("plugin_system.py", "FunctionPlugin._lower_and_call", "for-set", "call_param_names", "pname", "6163baa9d53b"), .refutedF2),
+  -- plugin_system.py
   (("plugin_system.py", "FunctionPlugin._lower_and_call", "id-call", "id(callee)", "", "5233142390de"), .keyOnly),
   (("plugin_system.py", "FunctionPlugin._lower_and_call._capture_const", "hash-call", "hash(arr.tobytes())", "", "d04277e11de7"), .keyOnly),
   (("plugin_system.py", "FunctionPlugin._lower_and_call._resolve_tracer_var", "id-call", "id(tracer)", "", "f09fcf475814"), .keyOnly),
@@ -94,9 +95,11 @@ theorem sites_reviewed : ∀ s ∈ sites, isReviewed s = true := by decide +kern
 /-- All anchored files were present and scanned. -/
 theorem scan_complete : missingFiles = [] := by decide +kernel
 
-/-- The only reviewed site that rests on a refuted statement is the listed finding's loop. -/
-theorem refuted_sites_are_the_listed_ones :
-    (reviewed.filter (fun r => r.2 == .refutedF2)).map (fun r => (r.1.2.1, r.1.2.2.2.1)) =
-      [("FunctionPlugin._lower_and_call", "call_param_names")] := by decide +kernel
+/-- No reviewed site rests on a refuted statement any more: the two loops that were order-dependent
+    (F-C14-1, F-C14-2) were repaired in /repo, and no set-iteration site of those two functions
+    appends to an ordered output. -/
+theorem no_reviewed_site_is_order_dependent :
+    ∀ r ∈ reviewed, r.2 ∈ [Cls.commutingRemove, .commutingSubst, .commutingLocal, .collect, .reduction,
+                            .dictFill, .sorted, .keyOnly, .registryOrder] := by decide +kernel
 
 end J2O.C14
